@@ -9,6 +9,7 @@ import (
 	"fmt"
 	"os"
 	"reflect"
+	"strings"
 
 	jmespath "github.com/jmespath/go-jmespath"
 )
@@ -124,7 +125,7 @@ func cmdMeta(args []string) int {
 				}
 				cmp++
 				isCanary := false
-				if *canary > 0 && cmp%*canary == 0 && other.Kind == "ok" {
+				if *canary > 0 && cmp%*canary == 0 && other.Kind == "ok" && !strings.Contains(mustJSON(allowed), "unspec") {
 					other = Obs{Kind: "ok", Value: "☃canary"}
 					isCanary = true
 					sum.CanariesIn++
